@@ -269,7 +269,7 @@ func (h *dpHist) tranOp(t *dpTran) {
 	ut := t.ut
 	ts := ut.getSchema(table)
 	ncols := len(ts.Columns)
-	if len(t.stale[tn]) > 0 && h.r.Intn(6) == 0 {
+	if len(t.stale[tn]) > 0 && h.r.Intn(3) == 0 {
 		// a write through a STALE offset (an old record object / cursor): the row version was
 		// already replaced or deleted by this same transaction.  The implementation must refuse
 		// it and must not leave a half applied change behind that could still be committed.
